@@ -118,12 +118,22 @@ def run(ctx, res):
     vlib.write_ndjson(ctx.path("vlq_cases.ndjson"), vc)
     vlib.run_harness(["vlq", ctx.path("vlq_cases.ndjson"), ctx.path("vlq_events.ndjson")])
     events += vlib.read_ndjson(ctx.path("vlq_events.ndjson"))
+    # the writer state machine: design-level model check, then its call sequences replayed into the real SourceWriter
+    mc = vlib.tlc("MC_MappingWriterAlgo", "MC_MappingWriterAlgo.cfg", workdir=ctx.work, workers=8, timeout=1500, xmx="6g")
+    res.add_tlc(mc)
+    g = vlib.tlc("MC_MappingWriterAlgo", "Gen_C06_quick.cfg" if ctx.quick else "Gen_C06_thorough.cfg", workdir=ctx.work, workers=8, timeout=1500, xmx="6g")
+    res.add_tlc(g)
+    wcases = g.tagged("CASE")
+    vlib.write_ndjson(ctx.path("writer_cases.ndjson"), wcases)
+    vlib.run_harness(["srcwriter", ctx.path("writer_cases.ndjson"), ctx.path("writer_events.ndjson")])
+    events += vlib.read_ndjson(ctx.path("writer_events.ndjson"))
     o = vlib.validate_trace("Trace_C06", "Trace_C06.cfg", events, workdir=ctx.work, timeout=3000, xmx="3g")
     res.add_trace(o)
     proj = [s for s in o.stats if "maps" in s]
     res.traces = o.events
     res.evaluations = o.events
-    res.distinct_nontrivial = len(cases) + len(vc)
+    wstats = [s for s in o.stats if "writer" in s]
+    res.distinct_nontrivial = len(cases) + len(vc) + sum(1 for s in wstats if s["writer"] == "judged")
     res.rule = ("%d seeded projects: valid schema (tsgen) split over 1-3 files, a root operation file with merge-heavy selections and 1-3 fragments, "
                 "optionally importing fragment files (one of them transitively), x the three generate modes x four output layouts (outputs above / "
                 "below / beside the inputs, resolvers output on/off); the real CLI writes every declaration and map; TLC decodes every map "
@@ -131,12 +141,17 @@ def run(ctx, res):
                 "original position a token start or just past a token, name = the token there or the name of the definition whose keyword is there) and "
                 "the coverage clause (every exported alias and field key in every namespace; operations and fragments incl. imported ones). "
                 "VLQ clause: the implementation's digits for every integer in [-2^%d, 2^%d], boundary values up to 2^30 and random 30-bit integers "
-                "are decoded by SourceMap.tla and must give the integer back. Non-trivial = distinct project or VLQ block."
+                "are decoded by SourceMap.tla and must give the integer back. Writer state machine: MappingWriterAlgo.tla (cursor with deferred "
+                "indentation, last_* delta state, names table with LRU) is model-checked (decode(emitted stream) = entries added), and every complete "
+                "call sequence of the model (write / write_for named, unnamed, built-in / indent / dedent, chunks with and without newlines) is "
+                "replayed into the real SourceWriter and judged by the property relation. Non-trivial = distinct project, VLQ block or judged sequence."
                 % (len(cases), 12 if ctx.quick else 18, 12 if ctx.quick else 18))
     ev0 = events[0]
     res.samples = [{"gen": ev0["maps"][0]["gen"], "sources": ev0["maps"][0]["map"].get("sourcesRaw"), "names": ev0["maps"][0]["map"].get("names", [])[:6]}] if ev0.get("maps") else [{}]
     res.extra.update({"projects": len(cases), "projects_fully_conforming": sum(1 for s in proj if s["ok"]), "maps_decoded": sum(s["maps"] for s in proj),
                       "segments_checked": sum(s["segments"] for s in proj), "vlq_integers": sum(s["vlq"] for s in o.stats if "vlq" in s),
+                      "writer_model_distinct_states": mc.distinct, "writer_sequences_replayed": len(wcases),
+                      "writer_sequences": {k: sum(1 for s in wstats if s["writer"] == k) for k in {s["writer"] for s in wstats}},
                       "outcomes": {"panicked": sum(1 for e in events if e.get("panicked")), "exit_nonzero": sum(1 for e in events if e.get("exit", 0) != 0)},
                       "trace_action_coverage": o.coverage})
     res.assumptions = ["token tables and definition headers of the input files are those recorded by the renderer that wrote them (ASCII inputs, so "
